@@ -358,6 +358,8 @@ class StmtMixin:
             if isinstance(v, VOpt) and positive:
                 narrow_name(t.id, False)
             return
+        if isinstance(t, ast.Compare) and len(t.ops) == 1 and isinstance(t.left, ast.NamedExpr):
+            t = ast.Compare(left=ast.Name(id=t.left.target.id, ctx=ast.Load()), ops=t.ops, comparators=t.comparators)
         if isinstance(t, ast.Compare) and len(t.ops) == 1 and isinstance(t.left, ast.Name) \
                 and isinstance(t.comparators[0], ast.Constant) and t.comparators[0].value is None:
             is_ = isinstance(t.ops[0], ast.Is)
